@@ -238,7 +238,16 @@ inline Rational ratFromString(const char* desc)
          else
             res = Rational(s);
 
-         res *= pow(10, mult);
+         if(mult != 0)
+         {
+            // exact integer power of ten (double pow() is inexact from 10^23 on and for every negative exponent)
+            Integer p10 = boost::multiprecision::pow(Integer(10), (unsigned)(mult < 0 ? -(long)mult : (long)mult));
+
+            if(mult > 0)
+               res *= Rational(p10);
+            else
+               res /= Rational(p10);
+         }
       }
    }
 
